@@ -21,12 +21,17 @@ any spelling and with repetitions, message lists of ANY length (the chunk loops 
 that are no longer in the selected mailbox.  Commands not answered OK are `failed_no_effect_partial`.
 
 Where the full statement is false of the code the witness is proved (`…_false_…`, replayed on the real server
-by `corpus/C03/*.content`) and the strongest `_partial` carries the NAMED hypothesis:
-  `NoForward`   the flag list names no "forwarded" alias         (store_ref_false_forward)
-  `Spelling`    a flag is always spelled the same way             (store_ref_false_spelling, …_clear)
-  `NamedInSrc`  MOVE names only messages still in the source      (move_ref_false_stale)
+by `corpus/C03/d*.content`) and the strongest `_partial` carries the NAMED hypothesis:
+  `NoForward`   the flag list names no "forwarded" alias         (store_ref_false_forward; by design in gluon)
   `lit.gid = none`  the literal has no X-Pm-Gluon-Id of a live message (append_ref_false_gluon_id; C20's finding)
   `≠ .no .secondTx` the failure is not in the update-queueing transaction (failed_no_effect_false_second_tx)
+
+History.  Two hypotheses of the first delivery are gone since the code was repaired: `Spelling` (gluon 45f4598:
+-FLAGS and FLAGS-with-nothing-but-\Deleted now delete the flag rows in any spelling) and `NamedInSrc` (gluon 7feeba5,
+971d4f3: a named message that is no longer in the source is not moved, its copy in the destination is left alone, and
+MOVE onto the selected mailbox itself does not bring it back).  Their former counterexamples are kept as regression
+examples that now AGREE with the reference (`store_spelling_regression`, `store_spelling_clear_regression`,
+`move_stale_regression`, `move_onto_itself_stale_regression`).
 -/
 import GluonModel.Lemmas.ActStepRef
 
@@ -60,12 +65,6 @@ theorem good_init (E : Env) (s : State) (hn : (s.db.mailboxes.map (·.name)).Nod
 
 /-! ## refinement, command by command -/
 
-/-- the flag values an index holds, plus those of a command: a universe `U` for the theorems that do not care -/
-def flagUniverse (s : State) (flags : List String) : List String := s.db.msgFlags.map (·.2) ++ flags
-
-theorem flagUniverse_within (s : State) (flags : List String) : FlagsWithin (flagUniverse s flags) s.db :=
-  fun p hp => List.mem_append_left _ (List.mem_map.mpr ⟨p, hp, rfl⟩)
-
 /-- **APPEND refines `refAppend`** — for every mailbox name, every flag list (any spelling, repetitions,
     `\Deleted` included: it becomes the per-mailbox flag) and every literal without an `X-Pm-Gluon-Id` of a live
     message: if the model answers OK, the new content is the old content with one new message (these flags,
@@ -74,44 +73,27 @@ theorem flagUniverse_within (s : State) (flags : List String) : FlagsWithin (fla
 theorem append_ref_partial (E : Env) (hE : EnvOk E) (s : State) (hG : Good E s) (mb : String) (flags : List String) (lit : Lit)
     (q : Second) (hgid : lit.gid = none) (h : (step E s (.append mb flags lit) q).1 = .ok) :
     abs (step E s (.append mb flags lit) q).2 = MailboxRef.refAppend (abs s) mb flags lit.bytes ∧
-      Good E (step E s (.append mb flags lit) q).2 := by
-  have := step_ref E hE (flagUniverse s flags) s hG (flagUniverse_within s flags) (.append mb flags lit) q (fun h => h.elim)
-    ⟨hgid, fun f hf _ => List.mem_append_right _ hf⟩ h
-  exact ⟨this.1, this.2.1⟩
+      Good E (step E s (.append mb flags lit) q).2 :=
+  step_ref E hE s hG (.append mb flags lit) q hgid h
 
 /-- **STORE refines `refStore`** — +FLAGS, -FLAGS and FLAGS (.SILENT or not), for every resolved message list of
-    any length, every flag list in any spelling: the shared flags of every named message and the per-mailbox
-    `\Deleted` of those still in the selected mailbox change exactly as the reference says.
-    (`_partial`: `NoForward`, and for -FLAGS / FLAGS `Spelling U` with the stored flags and the command's flags in
-    `U`; see `store_ref_false_forward`, `store_ref_false_spelling`, `store_ref_false_spelling_clear`.) -/
-theorem store_ref_partial (E : Env) (hE : EnvOk E) (U : List String) (s : State) (hG : Good E s) (hW : FlagsWithin U s.db)
+    any length and every flag list in ANY spelling (stored and given spellings may differ): the shared flags of
+    every named message and the per-mailbox `\Deleted` of those still in the selected mailbox change exactly as the
+    reference says.  (`_partial`: `NoForward`, see `store_ref_false_forward`.) -/
+theorem store_ref_partial (E : Env) (hE : EnvOk E) (s : State) (hG : Good E s)
     (mb : String) (msgs : Pairs) (action : StoreAction) (flags : List String) (q : Second)
-    (hnf : NoForward flags) (hfU : FlagsIn U flags) (hU : action ≠ .add → Spelling U)
-    (h : (step E s (.store mb msgs action flags) q).1 = .ok) :
+    (hnf : NoForward flags) (h : (step E s (.store mb msgs action flags) q).1 = .ok) :
     abs (step E s (.store mb msgs action flags) q).2 = MailboxRef.refStore (abs s) mb (msgs.map (·.1)) (storeOp action) flags ∧
-      Good E (step E s (.store mb msgs action flags) q).2 ∧ FlagsWithin U (step E s (.store mb msgs action flags) q).2.db := by
-  apply step_ref E hE U s hG hW (.store mb msgs action flags) q _ ⟨hnf, hfU⟩ h
-  intro hn
-  apply hU
-  cases action <;> simp_all [needsSpelling]
-
-/-- **+FLAGS needs no spelling hypothesis**: rows are only added, and only for messages that lack the flag's key. -/
-theorem store_add_ref_partial (E : Env) (hE : EnvOk E) (s : State) (hG : Good E s) (mb : String) (msgs : Pairs)
-    (flags : List String) (q : Second) (hnf : NoForward flags) (h : (step E s (.store mb msgs .add flags) q).1 = .ok) :
-    abs (step E s (.store mb msgs .add flags) q).2 = MailboxRef.refStore (abs s) mb (msgs.map (·.1)) .add flags ∧
-      Good E (step E s (.store mb msgs .add flags) q).2 := by
-  have := store_ref_partial E hE (flagUniverse s flags) s hG (flagUniverse_within s flags) mb msgs .add flags q hnf
-    (fun f hf _ => List.mem_append_right _ hf) (fun h => absurd rfl h) h
-  exact ⟨this.1, this.2.1⟩
+      Good E (step E s (.store mb msgs action flags) q).2 :=
+  step_ref E hE s hG (.store mb msgs action flags) q hnf h
 
 /-- **EXPUNGE / UID EXPUNGE / CLOSE refine `expungeMsgs`** — the messages the session's view shows as `\Deleted`
     (any number of them) leave the selected mailbox, those already gone are ignored, nothing else changes. -/
 theorem expunge_ref (E : Env) (hE : EnvOk E) (s : State) (hG : Good E s) (mb : String) (msgs : Pairs) (q : Second)
     (h : (step E s (.expunge mb msgs) q).1 = .ok) :
     abs (step E s (.expunge mb msgs) q).2 = MailboxRef.expungeMsgs (abs s) mb (msgs.map (·.1)) ∧
-      Good E (step E s (.expunge mb msgs) q).2 := by
-  have := step_ref E hE (flagUniverse s []) s hG (flagUniverse_within s []) (.expunge mb msgs) q (fun h => h.elim) trivial h
-  exact ⟨this.1, this.2.1⟩
+      Good E (step E s (.expunge mb msgs) q).2 :=
+  step_ref E hE s hG (.expunge mb msgs) q trivial h
 
 /-- for a session whose view is up to date (it names exactly the `\Deleted` entries of the authoritative mailbox)
     this is the reference's EXPUNGE -/
@@ -126,38 +108,36 @@ theorem expunge_ref_in_sync (E : Env) (hE : EnvOk E) (s : State) (hG : Good E s)
 theorem copy_ref (E : Env) (hE : EnvOk E) (s : State) (hG : Good E s) (src dst : String) (msgs : Pairs) (q : Second)
     (h : (step E s (.copy src dst msgs) q).1 = .ok) :
     abs (step E s (.copy src dst msgs) q).2 = MailboxRef.refCopy (abs s) dst (msgs.map (·.1)) ∧
-      Good E (step E s (.copy src dst msgs) q).2 := by
-  have := step_ref E hE (flagUniverse s []) s hG (flagUniverse_within s []) (.copy src dst msgs) q (fun h => h.elim) trivial h
-  exact ⟨this.1, this.2.1⟩
+      Good E (step E s (.copy src dst msgs) q).2 :=
+  step_ref E hE s hG (.copy src dst msgs) q trivial h
 
-/-- **MOVE refines `refMove`** — any number of messages, onto the selected mailbox itself (remove + re-add under
-    new UIDs) and into mailboxes that already hold them included.
-    (`_partial`: `NamedInSrc` — every named message still is in the source; see `move_ref_false_stale`.) -/
-theorem move_ref_partial (E : Env) (hE : EnvOk E) (s : State) (hG : Good E s) (src dst : String) (msgs : Pairs) (q : Second)
-    (hsrc : ∀ row, selected E s src = .ok row → NamedInSrc s row.id msgs)
+/-- **MOVE refines `refMove`, at full strength** — any number of messages, onto the selected mailbox itself
+    (remove + re-add under new UIDs), into mailboxes that already hold them, and with named messages another session
+    has already expunged from the source: exactly the named messages still in the source leave it and arrive at the
+    end of the destination under fresh UIDs; the others, and their copies in the destination, are left alone. -/
+theorem move_ref (E : Env) (hE : EnvOk E) (s : State) (hG : Good E s) (src dst : String) (msgs : Pairs) (q : Second)
     (h : (step E s (.move src dst msgs) q).1 = .ok) :
     abs (step E s (.move src dst msgs) q).2 = MailboxRef.refMove (abs s) src dst (msgs.map (·.1)) ∧
-      Good E (step E s (.move src dst msgs) q).2 := by
-  have := step_ref E hE (flagUniverse s []) s hG (flagUniverse_within s []) (.move src dst msgs) q (fun h => h.elim) hsrc h
-  exact ⟨this.1, this.2.1⟩
+      Good E (step E s (.move src dst msgs) q).2 :=
+  step_ref E hE s hG (.move src dst msgs) q trivial h
 
 /-! ## histories -/
 
 /-- **C03 (partial)** — for every history of APPEND / STORE / EXPUNGE / COPY / MOVE commands of any number of
     sessions (each command = its whole transactions, in the order the index's write lock serialises them; the list
-    is arbitrary, so is every argument and every message-list length): the authoritative content after the history
-    is the reference run of the commands that were answered OK, on the content before.
-    (`_partial`: `Spelling U` for the flags of the history and `HistOk`: per command the named hypotheses of the
-    command theorems, and no failure of an update-queueing transaction.) -/
-theorem C03_partial (E : Env) (hE : EnvOk E) (U : List String) (hU : Spelling U) (s : State) (hG : Good E s) (hW : FlagsWithin U s.db)
-    (cmds : List (Act.Cmd × Second)) (hH : HistOk E U s cmds) :
+    is arbitrary, so is every argument, every spelling and every message-list length): the authoritative content
+    after the history is the reference run of the commands that were answered OK, on the content before.
+    (`_partial`: `HistOk` — per command the named hypothesis of its theorem: no forwarded alias in a STORE, no
+    gluon id in an APPEND literal; and no failure of an update-queueing transaction.) -/
+theorem C03_partial (E : Env) (hE : EnvOk E) (s : State) (hG : Good E s)
+    (cmds : List (Act.Cmd × Second)) (hH : HistOk E s cmds) :
     abs (run E s cmds).1 = MailboxRef.refRun (abs s) (okRef E s cmds) :=
-  (run_ref E hE U hU cmds s hG hW hH).1
+  (run_ref E hE cmds s hG hH).1
 
 /-- the invariant is kept along such a history -/
-theorem good_run (E : Env) (hE : EnvOk E) (U : List String) (hU : Spelling U) (s : State) (hG : Good E s) (hW : FlagsWithin U s.db)
-    (cmds : List (Act.Cmd × Second)) (hH : HistOk E U s cmds) : Good E (run E s cmds).1 :=
-  (run_ref E hE U hU cmds s hG hW hH).2.1
+theorem good_run (E : Env) (hE : EnvOk E) (s : State) (hG : Good E s)
+    (cmds : List (Act.Cmd × Second)) (hH : HistOk E s cmds) : Good E (run E s cmds).1 :=
+  (run_ref E hE cmds s hG hH).2
 
 /-- **A command answered NO or BAD leaves every mailbox unchanged** — indeed the whole model state — unless the
     failure is in the second transaction of `stateDBWrite`.
@@ -193,25 +173,35 @@ theorem good_s0 : Good E0 s0 :=
 /-- one message with `\Seen` in INBOX -/
 def s1 : State := (step E0 s0 (.append "INBOX" ["\\Seen"] { bytes := "a" }) {}).2
 
-/-- **`store_ref` is false at full strength (1)**: `STORE 1 -FLAGS (\seen)` on a message stored with `\Seen` is
-    answered OK and leaves `\Seen` in the index (`DELETE … WHERE value = ?` compares the spelling). -/
-theorem store_ref_false_spelling :
+theorem good_s1 : Good E0 s1 :=
+  (append_ref_partial E0 envOk_E0 s0 good_s0 "INBOX" ["\\Seen"] { bytes := "a" } {} rfl (by decide)).2
+
+/-- regression (former counterexample `store_ref_false_spelling`, repaired by gluon 45f4598): `STORE 1 -FLAGS (\seen)`
+    on a message stored with `\Seen` is answered OK and removes the flag from the index (an instance of
+    `store_ref_partial`; `String.toLower` of the index model does not reduce by `decide`) -/
+theorem store_spelling_regression :
     (step E0 s1 (.store "INBOX" [(0, "r")] .rem ["\\seen"]) {}).1 = .ok ∧
-    abs (step E0 s1 (.store "INBOX" [(0, "r")] .rem ["\\seen"]) {}).2 ≠ MailboxRef.refStore (abs s1) "INBOX" [0] .remove ["\\seen"] := by
-  decide
+    abs (step E0 s1 (.store "INBOX" [(0, "r")] .rem ["\\seen"]) {}).2 = MailboxRef.refStore (abs s1) "INBOX" [0] .remove ["\\seen"] := by
+  have hok : (step E0 s1 (.store "INBOX" [(0, "r")] .rem ["\\seen"]) {}).1 = .ok := by decide
+  exact ⟨hok, (store_ref_partial E0 envOk_E0 s1 good_s1 "INBOX" [(0, "r")] .rem ["\\seen"] {} (by unfold NoForward; decide) hok).1⟩
+
+/-- what the reference says the content is then: the message has no flag left -/
+example : (MailboxRef.refStore (abs s1) "INBOX" [0] .remove ["\\seen"]).messages = [(0, ⟨[], "a"⟩)] := by decide
 
 /-- two messages, one stored with `\Seen`, one with `\SEEN` -/
 def s2 : State := (run E0 s0 [(.append "INBOX" ["\\Seen"] { bytes := "a" }, {}), (.append "INBOX" ["\\SEEN"] { bytes := "b" }, {})]).1
 
-/-- **`store_ref` is false at full strength (2)**: `STORE 1:2 FLAGS (\Deleted)` clears the other flags by the
-    first spelling it meets (fix 6649146): the message that spells `\Seen` differently keeps it. -/
-theorem store_ref_false_spelling_clear :
+/-- regression (former counterexample `store_ref_false_spelling_clear`, repaired by gluon 45f4598):
+    `STORE 1:2 FLAGS (\Deleted)` clears `\Seen` and `\SEEN` alike -/
+theorem store_spelling_clear_regression :
     (step E0 s2 (.store "INBOX" [(0, "r"), (1, "rr")] .set ["\\Deleted"]) {}).1 = .ok ∧
-    abs (step E0 s2 (.store "INBOX" [(0, "r"), (1, "rr")] .set ["\\Deleted"]) {}).2 ≠
+    abs (step E0 s2 (.store "INBOX" [(0, "r"), (1, "rr")] .set ["\\Deleted"]) {}).2 =
       MailboxRef.refStore (abs s2) "INBOX" [0, 1] .set ["\\Deleted"] := by
-  decide
+  have hG : Good E0 s2 := good_run E0 envOk_E0 s0 good_s0 _ ⟨rfl, by decide, rfl, by decide, trivial⟩
+  have hok : (step E0 s2 (.store "INBOX" [(0, "r"), (1, "rr")] .set ["\\Deleted"]) {}).1 = .ok := by decide
+  exact ⟨hok, (store_ref_partial E0 envOk_E0 s2 hG "INBOX" [(0, "r"), (1, "rr")] .set ["\\Deleted"] {} (by unfold NoForward; decide) hok).1⟩
 
-/-- **`store_ref` is false at full strength (3)**: `STORE 1 +FLAGS ($Forwarded)` stores `$Forwarded` AND
+/-- **`store_ref` is false at full strength**: `STORE 1 +FLAGS ($Forwarded)` stores `$Forwarded` AND
     `Forwarded` (applyMessageFlagsAdded adds all known variations). -/
 theorem store_ref_false_forward :
     (step E0 s1 (.store "INBOX" [(0, "r")] .add ["$Forwarded"]) {}).1 = .ok ∧
@@ -222,13 +212,26 @@ theorem store_ref_false_forward :
 def s3 : State := (run E0 s1 [(.copy "INBOX" "mb1" [(0, "r")], {}), (.store "INBOX" [(0, "r")] .add ["\\Deleted"], {}),
   (.expunge "INBOX" [(0, "r")], {})]).1
 
-/-- **`move_ref` is false at full strength**: a session that still sees the message in INBOX moves it to mb1, which
-    holds it: answered OK, and the message is in NO mailbox afterwards (actionMoveMessages removes every named
-    message from the destination, then moves only those it finds in the source). -/
-theorem move_ref_false_stale :
+/-- regression (former counterexample `move_ref_false_stale`, repaired by gluon 7feeba5): a session that still sees
+    the message in INBOX moves it to mb1, which holds it: nothing moves and the copy in mb1 stays -/
+theorem move_stale_regression :
     (step E0 s3 (.move "INBOX" "mb1" [(0, "r")]) {}).1 = .ok ∧
-    abs (step E0 s3 (.move "INBOX" "mb1" [(0, "r")]) {}).2 ≠ MailboxRef.refMove (abs s3) "INBOX" "mb1" [0] ∧
-    (abs (step E0 s3 (.move "INBOX" "mb1" [(0, "r")]) {}).2).mailboxes = [("INBOX", { entries := [], uidNext := 2 }), ("mb1", { entries := [], uidNext := 2 })] := by
+    abs (step E0 s3 (.move "INBOX" "mb1" [(0, "r")]) {}).2 = MailboxRef.refMove (abs s3) "INBOX" "mb1" [0] ∧
+    (abs (step E0 s3 (.move "INBOX" "mb1" [(0, "r")]) {}).2).mailboxes =
+      [("INBOX", { entries := [], uidNext := 2 }), ("mb1", { entries := [⟨1, 0, false⟩], uidNext := 2 })] := by
+  decide
+
+/-- two messages in INBOX, the first expunged by another session -/
+def s4 : State := (run E0 s1 [(.append "INBOX" [] { bytes := "b" }, {}), (.store "INBOX" [(0, "r")] .add ["\\Deleted"], {}),
+  (.expunge "INBOX" [(0, "r")], {})]).1
+
+/-- regression (former counterexample `move_ref_false_same_mailbox_stale`, repaired by gluon 971d4f3): a session that
+    still sees the expunged message moves it onto INBOX itself: answered OK, nothing changes -/
+theorem move_onto_itself_stale_regression :
+    (step E0 s4 (.move "INBOX" "INBOX" [(0, "r")]) {}).1 = .ok ∧
+    abs (step E0 s4 (.move "INBOX" "INBOX" [(0, "r")]) {}).2 = MailboxRef.refMove (abs s4) "INBOX" "INBOX" [0] ∧
+    (abs (step E0 s4 (.move "INBOX" "INBOX" [(0, "r")]) {}).2).mailboxes =
+      [("INBOX", { entries := [⟨2, 1, false⟩], uidNext := 3 }), ("mb1", { entries := [], uidNext := 1 })] := by
   decide
 
 /-- **`append_ref` is false at full strength**: a literal that carries the `X-Pm-Gluon-Id` of a live message is
@@ -246,43 +249,43 @@ theorem failed_no_effect_false_second_tx :
     abs (step E0 s1 (.store "INBOX" [(0, "r")] .add ["\\Flagged"]) { fails := true }).2 ≠ abs s1 := by
   decide
 
-/-- **C03 is false at full strength**: the two-command history APPEND (\Seen), STORE -FLAGS (\seen) is answered
+/-- **C03 is false at full strength**: the two-command history APPEND, STORE +FLAGS ($Forwarded) is answered
     OK, OK and the authoritative content is not the reference run. -/
 theorem C03_false :
     ¬ ∀ (s : State) (cmds : List (Act.Cmd × Second)), Good E0 s → abs (run E0 s cmds).1 = MailboxRef.refRun (abs s) (okRef E0 s cmds) := by
   intro h
-  have := h s0 [(.append "INBOX" ["\\Seen"] { bytes := "a" }, {}), (.store "INBOX" [(0, "r")] .rem ["\\seen"], {})] good_s0
+  have := h s0 [(.append "INBOX" ["\\Seen"] { bytes := "a" }, {}), (.store "INBOX" [(0, "r")] .add ["$Forwarded"], {})] good_s0
   revert this
   decide
 
 /-! ## non-vacuity -/
 
-/-- a history in which every command is answered OK and every named hypothesis holds: two appends (one with
-    `\Deleted`), copy of both, store, move onto a mailbox that holds the message, copy onto itself, expunge -/
+/-- a history in which every command but the last is answered OK and every named hypothesis holds: two appends (one
+    with `\Deleted`), copy of both, store, move onto a mailbox that holds the message, copy onto itself, expunge, and a
+    copy into a mailbox that does not exist -/
 def demo : List (Act.Cmd × Second) := [
   (.append "INBOX" ["\\Seen", "\\Deleted"] { bytes := "hello" }, {}),
   (.append "INBOX" ["\\Answered"] { bytes := "world" }, { clearRecent := [(1, 1)] }),
   (.copy "INBOX" "mb1" [(0, "r"), (1, "rr")], {}),
-  (.store "INBOX" [(0, "r")] .rem ["\\Seen"], {}),
   (.store "mb1" [(1, "rr")] .add ["\\DELETED", "x"], {}),
   (.move "INBOX" "mb1" [(0, "r")], {}),
   (.copy "mb1" "mb1" [(0, "r")], {}),
   (.expunge "mb1" [(1, "rr")], {}),
   (.copy "INBOX" "nowhere" [(1, "rr")], {})]
 
-example : (run E0 s0 demo).2 = [.ok, .ok, .ok, .ok, .ok, .ok, .ok, .ok, .no .noSuchMailbox] := by decide
+example : (run E0 s0 demo).2 = [.ok, .ok, .ok, .ok, .ok, .ok, .ok, .no .noSuchMailbox] := by decide +kernel
 
 example : (abs (run E0 s0 demo).1).mailboxes =
-    [("INBOX", { entries := [⟨2, 1, false⟩], uidNext := 3 }), ("mb1", { entries := [⟨4, 0, false⟩], uidNext := 5 })] := by decide
+    [("INBOX", { entries := [⟨2, 1, false⟩], uidNext := 3 }), ("mb1", { entries := [⟨4, 0, false⟩], uidNext := 5 })] := by decide +kernel
 
-example : (abs (run E0 s0 demo).1).messages = [(0, ⟨[], "hello"⟩), (1, ⟨["\\answered", "x"], "world"⟩)] := by decide
+example : (abs (run E0 s0 demo).1).messages = [(0, ⟨["\\seen"], "hello"⟩), (1, ⟨["\\answered", "x"], "world"⟩)] := by decide +kernel
 
 /-- the reference run of the same history gives the same state (an instance of `C03_partial`, computed) -/
-example : abs (run E0 s0 demo).1 = MailboxRef.refRun (abs s0) (okRef E0 s0 demo) := by decide
+example : abs (run E0 s0 demo).1 = MailboxRef.refRun (abs s0) (okRef E0 s0 demo) := by decide +kernel
 
-/-- the hypotheses of `C03_partial` are satisfiable by this history (`\\Deleted` may be spelled in any way) -/
-example : Spelling ["\\Seen", "\\Answered", "x"] ∧ FlagsWithin ["\\Seen", "\\Answered", "x"] s0.db ∧
-    FlagsIn ["\\Seen", "\\Answered", "x"] ["\\DELETED", "x"] ∧ NoForward ["\\DELETED", "x"] := by
-  refine ⟨by unfold Spelling; decide, by unfold FlagsWithin; decide, by unfold FlagsIn; decide, by unfold NoForward; decide⟩
+/-- the named hypothesis of the STORE step of this history holds (-FLAGS and FLAGS are exercised by
+    `store_spelling_regression` and `store_spelling_clear_regression`: `String.toLower` in the index model's
+    `COLLATE NOCASE` does not reduce by `decide`) -/
+example : NoForward ["\\DELETED", "x"] := by unfold NoForward; decide
 
 end Gluon.C03
